@@ -227,7 +227,20 @@ fn ftext(depth: u32) -> BoxedStrategy<FText> {
         }
         .into_bytes()
     });
+    // date and timestamp literals assembled from boundary parts (skipped / repeated local hours, 29 February of
+    // century years, out-of-range fields and offsets, known / unknown zones)
+    let stamps = (super::c03::timestamp_text(), super::c03::timestamp_text(), 0u8..5).prop_map(|(a, b, form)| {
+        match form {
+            0 => format!("ts < {a}"),
+            1 => format!("ts >= {a} and ts < {b}"),
+            2 => format!("d == {a} or not x"),
+            3 => format!("( ts != {a} ) and e->ts <= {b}"),
+            _ => format!("ts == {a}"),
+        }
+        .into_bytes()
+    });
     prop_oneof![
+        2 => (stamps, next()).prop_map(|(bytes, next)| FText { bytes, origin: "timestamp-soup".into(), next }),
         2 => (escapes, next()).prop_map(|(bytes, next)| FText { bytes, origin: "escape-soup".into(), next }),
         2 => (prop::collection::vec(any::<u8>(), 0..64), next()).prop_map(|(bytes, next)| FText { bytes, origin: "arbitrary-bytes".into(), next }),
         2 => (crate::gen::value::ustring(24), next()).prop_map(|(s, next)| FText { bytes: s.into_bytes(), origin: "arbitrary-utf8".into(), next }),
@@ -383,7 +396,7 @@ fn run_ladder(ctx: &mut Ctx) {
 }
 
 pub fn run(ctx: &mut Ctx) {
-    ctx.rule("inputs: arbitrary bytes and UTF-8 strings, operator soup from the token dictionary, printed valid filters, every prefix of them, 1-3 mutations, ref-chasing filters (*==, relationship queries, paths over ref tags), and a paren-depth ladder 1..131072 (eight shapes - bare, spaced, and-chains, flat chains, and the nesting placed after a Str / Uri / Ref-display literal that holds brackets and quotes of its own - closed and unclosed) in child processes on the main and a 2 MiB thread stack, also through haystack_filter_parse; every filter that parses is printed and evaluated on six records whose refs (single refs and lists of refs) form generated cycles, against the empty and the real Project Haystack namespace, through a resolver with a call budget; oracle: parse returns Ok/Err, evaluation returns - no panic, fuel exhaustion, abort, confirmed hang or budget exhaustion; non-trivial: >= 2 tokens; distinct by text");
+    ctx.rule("inputs: arbitrary bytes and UTF-8 strings, operator soup from the token dictionary, printed valid filters, every prefix of them, 1-3 mutations, date / timestamp literals assembled from boundary parts, ref-chasing filters (*==, relationship queries, paths over ref tags), and a paren-depth ladder 1..131072 (eight shapes - bare, spaced, and-chains, flat chains, and the nesting placed after a Str / Uri / Ref-display literal that holds brackets and quotes of its own - closed and unclosed) in child processes on the main and a 2 MiB thread stack, also through haystack_filter_parse; every filter that parses is printed and evaluated on six records whose refs (single refs and lists of refs) form generated cycles, against the empty and the real Project Haystack namespace, through a resolver with a call budget; oracle: parse returns Ok/Err, evaluation returns - no panic, fuel exhaustion, abort, confirmed hang or budget exhaustion; non-trivial: >= 2 tokens; distinct by text");
     ctx.assume("an evaluation that does not terminate must keep calling the resolver (both ref-following loops do); the budget of 20000 calls per evaluation is far above what six records allow");
     let _ = real_ns();
     run_ladder(ctx);
